@@ -350,8 +350,12 @@ pub fn stress(seed: u64, num_threads: usize, num_slots: usize, num_contents: i64
     type Cell = (Mutex<Option<SharedString>>, std::sync::atomic::AtomicUsize);
     let cells: Arc<Vec<Cell>> = Arc::new((0..num_threads / 2 + 1).map(|_| (Mutex::new(None), std::sync::atomic::AtomicUsize::new(0))).collect());
     let pair_stale = Arc::new(std::sync::atomic::AtomicUsize::new(0));
+    // a panic inside the code under test (it would also poison the table lock) must not stall the run: it is
+    // recorded, the partner of a pair is released, and the worker keeps meeting the barriers
+    let abort = Arc::new(std::sync::atomic::AtomicBool::new(false));
     let mut handles = Vec::new();
     for t in 0..num_threads {
+        let abort = abort.clone();
         let barrier = barrier.clone();
         let shared = shared.clone();
         let bad = bad.clone();
@@ -362,6 +366,10 @@ pub fn stress(seed: u64, num_threads: usize, num_slots: usize, num_contents: i64
             let mut slots: Vec<Option<SharedString>> = (0..num_slots).map(|_| None).collect();
             let mut made: Vec<i64> = vec![0; num_slots];
             for round in 0..=rounds {
+                let body = std::panic::catch_unwind(std::panic::AssertUnwindSafe(|| {
+                if abort.load(std::sync::atomic::Ordering::SeqCst) {
+                    return;
+                }
                 if round < rounds {
                     for _ in 0..ops_per_round {
                         let i = rng.gen_range(0..num_slots);
@@ -406,6 +414,9 @@ pub fn stress(seed: u64, num_threads: usize, num_slots: usize, num_contents: i64
                                 *cell.lock().unwrap() = Some(h.clone());
                                 stage.store(4 * k + 1, SeqCst);
                                 while stage.load(SeqCst) < 4 * k + 2 {
+                                    if abort.load(SeqCst) {
+                                        return;
+                                    }
                                     std::hint::spin_loop();
                                 }
                                 for _ in 0..(k % 7) {
@@ -413,6 +424,9 @@ pub fn stress(seed: u64, num_threads: usize, num_slots: usize, num_contents: i64
                                 }
                                 drop(h);
                                 while stage.load(SeqCst) < 4 * k + 3 {
+                                    if abort.load(SeqCst) {
+                                        return;
+                                    }
                                     std::hint::spin_loop();
                                 }
                                 if rbx_types::verif_shared_string_cache_entries().iter().any(|e| e.0 == my_hash) {
@@ -423,6 +437,9 @@ pub fn stress(seed: u64, num_threads: usize, num_slots: usize, num_contents: i64
                                 stage.store(4 * k + 4, SeqCst);
                             } else {
                                 while stage.load(SeqCst) < 4 * k + 1 {
+                                    if abort.load(SeqCst) {
+                                        return;
+                                    }
                                     std::hint::spin_loop();
                                 }
                                 let h = cell.lock().unwrap().take().unwrap();
@@ -434,13 +451,25 @@ pub fn stress(seed: u64, num_threads: usize, num_slots: usize, num_contents: i64
                                 // the partner may still be inside its own drop: it advances the stage only after it
                                 stage.store(4 * k + 3, SeqCst);
                                 while stage.load(SeqCst) < 4 * k + 4 {
+                                    if abort.load(SeqCst) {
+                                        return;
+                                    }
                                     std::hint::spin_loop();
                                 }
                             }
                         }
                     }
                 }
-                shared.lock().unwrap()[t] = infos(&slots);
+                }));
+                if let Err(p) = body {
+                    abort.store(true, std::sync::atomic::Ordering::SeqCst);
+                    let msg = p.downcast_ref::<String>().cloned().or_else(|| p.downcast_ref::<&str>().map(|s| s.to_string())).unwrap_or_default();
+                    bad.lock().unwrap().push(format!("panic in SharedString code on thread {}: {}", t, msg));
+                    for s in slots.iter_mut() {
+                        std::mem::forget(s.take()); // their Drop would meet the poisoned lock
+                    }
+                }
+                shared.lock().unwrap()[t] = std::panic::catch_unwind(std::panic::AssertUnwindSafe(|| infos(&slots))).unwrap_or_else(|_| vec![None; num_slots]);
                 barrier.wait(); // everyone quiescent
                 barrier.wait(); // controller has observed
             }
@@ -449,9 +478,14 @@ pub fn stress(seed: u64, num_threads: usize, num_slots: usize, num_contents: i64
     for round in 0..=rounds {
         barrier.wait();
         let slots = shared.lock().unwrap().clone();
-        let mut proj = Projector::new(num_contents, 64);
         let pending = vec![None; num_threads];
-        let post = proj.project(&slots, &pending);
+        let post = match std::panic::catch_unwind(std::panic::AssertUnwindSafe(|| Projector::new(num_contents, 64).project(&slots, &pending))) {
+            Ok(p) => p,
+            Err(_) => {
+                bad.lock().unwrap().push("the intern table could not be inspected (its lock is poisoned)".to_string());
+                json!({"slot": [], "made": [], "pending": [], "table": [], "strong": [], "bcontent": [], "next": 0, "unknown_entries": 0})
+            }
+        };
         emit(out, &ep, json!({"op": "observe", "round": round, "final": round == rounds, "post": post,
                               "pair_stale": pair_stale.load(std::sync::atomic::Ordering::SeqCst),
                               "data_errors": bad.lock().unwrap().clone()}));
